@@ -27,6 +27,7 @@ P = 'C03'
 EPS = 2.0 ** -52
 ULPS = 64.0                      # G tolerance: 64 ulp * cond
 BOX = 4.0                        # vertex coordinates in [-BOX, BOX]
+DET_MIN = 0.02   # kept for vf.props.c13, whose no-coincidence obligations need a positive lower bound on det J (C03 itself is scale-free: det J > 0)
 TWO_PI = 2 * math.pi             # the binary64 constant the code multiplies with (2*np.pi is exact doubling of np.pi)
 SYM_ULPS = 16.0                  # cyclic symmetry of the decimal triangle tables (QuadratureRule docstring), absolute ulps of 1
 TOL_W = ULPS * EPS               # |sum of weights - exact| <= TOL_W (established by G, re-proved where used)
